@@ -23,10 +23,15 @@ def setup():
         from translator import gen
         gen.regenerate()
         C.coq_project()
-        ok, log = C.make(["all"], timeout=3000)
+        ok, log = C.make(["-k", "all"], timeout=3000)
     print(log[-3000:])
-    print(f"setup: build {'OK' if ok else 'FAILED'} in {time.time()-t0:.0f}s")
-    return 0 if ok else 1
+    print(f"setup: build {'OK' if ok else 'INCOMPLETE'} in {time.time()-t0:.0f}s")
+    if not ok:
+        # A proof or tie that does not check against the current /repo is a finding of the
+        # property's own check (which rebuilds what it needs and reports it with a replay),
+        # not a reason to stop before any check has run.
+        print("setup: some targets did not build; the per-property checks will report them")
+    return 0
 
 
 def _impl_worker(args):
